@@ -456,6 +456,10 @@ def run(ctx):
     if only:
         uniq = [(k, x) for k, x in uniq if any(meta[kk][0].startswith(only) for kk in [k] + also.get(k, []))]
         ctx.exhaustive = False
+    onlybase = os.environ.get("C37_BASE")        # debugging aid: restrict to corpus documents whose name contains this
+    if onlybase:
+        uniq = [(k, x) for k, x in uniq if onlybase in meta[k][2]]
+        ctx.exhaustive = False
     bykind = collections.Counter(meta[k][0] for k, _ in uniq)
     ctx.extra["documents_by_kind"] = dict(bykind)
     sys.stderr.write("C37: %d distinct documents: %s\n" % (len(uniq), dict(bykind)))
